@@ -24,6 +24,7 @@ def il_values(rng, k):
 
 
 def cases(rng, tier):
+    yield from _bulk_cases(rng, tier)
     n = 12 if tier == "quick" else 600
     for _ in range(n):
         spec, k, chain, depth = rand_parent(rng)
@@ -47,6 +48,16 @@ def cases(rng, tier):
             yield "bip85 %s xprv 0 0 %s" % (spec, e), "bip85-xprv"
 
 
+def _bulk_cases(rng, tier):
+    for _ in range(2 if tier == "quick" else 40):
+        spec, k, chain, depth = rand_parent(rng)
+        pub = neuter(spec, k)
+        for IL in il_values(rng, k)[:10]:
+            prf = "prf=" + (IL.to_bytes(32, "big") + bytes(rng.getrandbits(8) for _ in range(32))).hex()
+            ar, a, b, st = rng.choice([(3, 4, 0, -2), (3, 0, 6, 3), (1, 0, 2, 0), (3, 2 ** 31 + 2, 2 ** 31 - 1, -2), (2, 1, 3, 0)])
+            yield "gen_step %s %d %d %d %d %s" % (rng.choice([spec, pub]), ar, a, b, st, prf), "bulk-interval-shape-prf"
+
+
 def nontrivial(line, out):
     return True
 
@@ -55,6 +66,8 @@ def oracle(line, out):
     tok = line.split(" ")
     op = tok[0]
     v = ok_val(out)
+    if op == "gen_step":
+        return common.bulk_oracle(line, out)
     prf = tok[3] if op == "ckd_retry" else tok[-1]
     if not prf.startswith("prf="):
         return None
